@@ -10,7 +10,10 @@ variables) that are neither parameters nor declared global / nonlocal; uses insi
 and inner functions follow unless the inner scope rebinds the name.  Parameters, attributes, keyword names, function
 and class names are left alone (they are API).
 
-Usage: python3-vt tools/alpha_rename.py <outdir> [suffix]
+Options: --return-via-local, --flip-branches, --attr-via-getattr (every attribute load inside a function becomes getattr(x, 'name'),
+every single attribute assignment setattr(x, 'name', v)).
+
+Usage: python3-vt tools/alpha_rename.py [options] <outdir> [suffix]
 """
 import ast
 import os
@@ -211,7 +214,41 @@ class FlipBranches(ast.NodeTransformer):
         return ast.IfExp(test=ast.UnaryOp(op=ast.Not(), operand=node.test), body=node.orelse, orelse=node.body)
 
 
+class AttrViaGetattr(ast.NodeTransformer):
+    """`a.b` (a load) -> `getattr(a, 'b')`; `a.b = v` as a statement with a single attribute target -> `setattr(a, 'b', v)`.
+    Dunder attributes, decorators and class-level declarations are left alone."""
+
+    def __init__(self):
+        self.depth = 0
+
+    def visit_FunctionDef(self, node):
+        decos = node.decorator_list
+        node.decorator_list = []
+        self.depth += 1
+        self.generic_visit(node)
+        self.depth -= 1
+        node.decorator_list = decos
+        return node
+
+    def visit_Attribute(self, node):
+        self.generic_visit(node)
+        if self.depth and isinstance(node.ctx, ast.Load) and not node.attr.startswith("__"):
+            return ast.copy_location(ast.Call(func=ast.Name(id="getattr", ctx=ast.Load()), args=[node.value, ast.Constant(value=node.attr)], keywords=[]), node)
+        return node
+
+    def visit_Assign(self, node):
+        self.generic_visit(node)
+        if self.depth and len(node.targets) == 1 and isinstance(node.targets[0], ast.Attribute) and not node.targets[0].attr.startswith("__"):
+            t = node.targets[0]
+            return ast.copy_location(ast.Expr(value=ast.Call(func=ast.Name(id="setattr", ctx=ast.Load()),
+                                                             args=[t.value, ast.Constant(value=t.attr), node.value], keywords=[])), node)
+        return node
+
+
 def main():
+    via_getattr = "--attr-via-getattr" in sys.argv
+    if via_getattr:
+        sys.argv.remove("--attr-via-getattr")
     flip = "--flip-branches" in sys.argv
     if flip:
         sys.argv.remove("--flip-branches")
@@ -242,6 +279,8 @@ def main():
                 tree = ReturnViaLocal().visit(tree)
             if flip:
                 tree = FlipBranches().visit(tree)
+            if via_getattr:
+                tree = AttrViaGetattr().visit(tree)
             ast.fix_missing_locations(tree)
             src = ast.unparse(tree) + "\n"
             compile(src, p, "exec")
